@@ -739,9 +739,15 @@ impl Sim {
     clock_advance_ms(wait);
     let sh = Shared { lis: Arc::new(Recorder::default()), loads: self.sh.loads.clone(), next_wid: self.sh.next_wid.clone() };
     let hseed = if self.rng.random_bool(0.5) { self.cfg.hseed } else { self.rng.random() };
-    let cache = make_builder(&self.cfg, &sh, hseed).build_from_snapshot(snap2).expect("restore");
-    self.ac = cache.to_async();
-    self.cache = cache;
+    if a {
+      let ac = make_builder(&self.cfg, &sh, hseed).build_from_snapshot_async(snap2).expect("restore");
+      self.cache = ac.to_sync();
+      self.ac = ac;
+    } else {
+      let cache = make_builder(&self.cfg, &sh, hseed).build_from_snapshot(snap2).expect("restore");
+      self.ac = cache.to_async();
+      self.cache = cache;
+    }
     self.sh = sh;
     self.marker_seq = 0;
     self.carry_notes = old_notes.unwrap_or_default();
